@@ -3,7 +3,7 @@
    specification (headers, versions, streams) in Proofs/XfrSpec.v. *)
 From DV Require Import Base.Prelude Model.XfrM Proofs.XfrSpec.
 From DV Require Proofs.XfrZone Proofs.XfrDiff.
-From DV Require Proofs.XfrSafety Proofs.XfrBasic Proofs.XfrIxfr Proofs.XfrAxfr Proofs.XfrFault Proofs.XfrOrder Proofs.XfrRefresh Proofs.XfrGlue Proofs.XfrTsig Proofs.XfrSections Proofs.XfrGroup Proofs.XfrSoaFaults Proofs.XfrTsigLink.
+From DV Require Proofs.XfrSafety Proofs.XfrBasic Proofs.XfrIxfr Proofs.XfrAxfr Proofs.XfrFault Proofs.XfrOrder Proofs.XfrRefresh Proofs.XfrGlue Proofs.XfrTsig Proofs.XfrSections Proofs.XfrGroup Proofs.XfrSoaFaults Proofs.XfrTsigLink Proofs.XfrAddStart.
 From DV Require Model.TsigM.
 From Coq Require Import Sorting.Permutation.
 
@@ -334,6 +334,33 @@ Theorem ixfr_duplicated_section_soa_rejected : forall v0 c1 b c2,
             (Error (XfrSoaFaults.mis_code (last (c1 ++ b :: c2) v0) b false) z0, n).
 Proof. exact XfrSoaFaults.ixfr_duplicated_section_soa_rejected. Qed.
 Print Assumptions ixfr_duplicated_section_soa_rejected.
+
+(* the SOA that starts the ADDITION section of a -> b is dropped (the section adds something): its
+   first added record is then a deletion of a record that is not there *)
+Theorem ixfr_dropped_addstart_rejected : forall v0 c1 b c2,
+  chain_ok v0 (c1 ++ b :: c2) ->
+  forall r A' rest z0 ws,
+  zminus (v_rest b) (v_rest (last c1 v0)) = r :: A' -> zeq z0 (zone_of v0) ->
+  chunking tIXFR (soa_rr (last (c1 ++ b :: c2) v0) :: diff_seqs v0 c1 ++ soa_rr (last c1 v0) ::
+                  zminus (v_rest (last c1 v0)) (v_rest b) ++ r :: rest) ws ->
+  exists n, inbound_xfr z0 tIXFR (Some (v_serial v0)) false ws = (Error eDeleteNotExact z0, n).
+Proof. exact XfrAddStart.ixfr_dropped_addstart_rejected. Qed.
+Print Assumptions ixfr_dropped_addstart_rejected.
+
+(* ... or sent twice (b is not the last version): the copy starts a deletion section whose "deletions"
+   are the additions.  (For the last version the duplicate is undetectable:
+   ex_dup_last_addstart_undetectable.) *)
+Theorem ixfr_duplicated_addstart_rejected : forall v0 c1 b c2,
+  chain_ok v0 (c1 ++ b :: c2) ->
+  forall r A' nx tail z0 ws,
+  c2 <> [] -> ttl_ok (v_ttl nx) ->
+  zminus (v_rest b) (v_rest (last c1 v0)) = r :: A' -> zeq z0 (zone_of v0) ->
+  chunking tIXFR (soa_rr (last (c1 ++ b :: c2) v0) :: diff_seqs v0 c1 ++ soa_rr (last c1 v0) ::
+                  zminus (v_rest (last c1 v0)) (v_rest b) ++
+                  soa_rr b :: soa_rr b :: (r :: A') ++ soa_rr nx :: tail) ws ->
+  exists n, inbound_xfr z0 tIXFR (Some (v_serial v0)) false ws = (Error eDeleteNotExact z0, n).
+Proof. exact XfrAddStart.ixfr_duplicated_addstart_rejected. Qed.
+Print Assumptions ixfr_duplicated_addstart_rejected.
 
 (* the first SOA sent twice *)
 Theorem ixfr_duplicated_first_soa_rejected : forall fin rest z0 ser ws,
